@@ -316,8 +316,9 @@ theorem setAll_post (s : Props) (kvs : KV) (k : Key) (hk : k ∈ keysOf kvs) :
       · rw [b, set_mod, mem_sadd]; exact Or.inr rfl
       · rw [c, set_del, mem_srem]; exact fun h => h.2 rfl
 
-/-- `Merge` preserves the invariant (both entities from the same loaded state) -/
-theorem inv_merge {L : KV} {s o : Props} (h : Inv L s) (ho : Inv L o) : Inv L (s.merge o) := by
+/-- `Merge` preserves the invariant, in general form: the receiver tracked relative to `Ls`, the other entity relative to
+`Lo`; the result is tracked relative to `Ls` overlaid with `Lo` (both `L`: `L` again; a detached entity has `[]`). -/
+theorem inv_merge_gen {Ls Lo : KV} {s o : Props} (h : Inv Ls s) (ho : Inv Lo o) : Inv (overlay Ls Lo) (s.merge o) := by
   have hd := h.disj; have hm := h.modDom; have he := h.delDom; have hu := h.untouched
   have od := ho.disj; have om := ho.modDom; have oe := ho.delDom; have ou := ho.untouched
   constructor
@@ -352,15 +353,31 @@ theorem inv_merge {L : KV} {s o : Props} (h : Inv L s) (ho : Inv L o) : Inv L (s
     rw [if_neg hxd]
     have hxm : x ∉ o.mod := fun hh => h1 ⟨Or.inr hh, hxd⟩
     have hsm : x ∉ s.mod := fun hh => h1 ⟨Or.inl hh, hxd⟩
+    have hol := ou x hxm hxd
+    rw [lookup_overlay]
     cases hlo : lookup o.m x with
     | some v =>
       simp only
-      rw [← hlo]; exact ou x hxm hxd
+      rw [← hol, hlo]
     | none =>
       simp only
       have hxk : x ∉ keysOf o.m := (lookup_eq_none_iff _ _).1 hlo
       have hsd : x ∉ s.del := fun hh => h2 (Or.inl ⟨⟨hh, hxk⟩, hxm⟩)
+      rw [← hol, hlo]
       exact hu x hsm hsd
+
+theorem inv_congr {L L' : KV} {s : Props} (hl : ∀ k, lookup L k = lookup L' k) (h : Inv L s) : Inv L' s :=
+  ⟨h.disj, h.modDom, h.delDom, fun k hm hd => (h.untouched k hm hd).trans (hl k)⟩
+
+theorem weak_congr {L L' : KV} {s : Props} (hl : ∀ k, lookup L k = lookup L' k) (h : WeakInv L s) : WeakInv L' s :=
+  ⟨h.disj, h.modDom, fun k hm hd => (h.untouched k hm hd).trans (hl k)⟩
+
+theorem lookup_overlay_self (L : KV) (k : Key) : lookup (overlay L L) k = lookup L k := by
+  rw [lookup_overlay]; cases lookup L k <;> rfl
+
+/-- `Merge` preserves the invariant (both entities from the same loaded state) -/
+theorem inv_merge {L : KV} {s o : Props} (h : Inv L s) (ho : Inv L o) : Inv L (s.merge o) :=
+  inv_congr (lookup_overlay_self L) (inv_merge_gen h ho)
 
 /-- the merge before commit 179da67 preserves every clause except `Deleted ∩ dom Map = ∅` -/
 theorem weak_mergeOld {L : KV} {s o : Props} (h : WeakInv L s) (ho : WeakInv L o) : WeakInv L (s.mergeOld o) := by
@@ -940,18 +957,206 @@ theorem kindsViolation_none_iff (L : List Kind) (e : Ent) :
           simp [ha, hr, this]
     rw [h1, h2, h3, h4]
 
+/-! ### StripAllPropertiesExcept -/
+
+/-- value, modified?, deleted? of one key -/
+def status (p : Props) (k : Key) : Option Val × Bool × Bool := (lookup p.m k, decide (k ∈ p.mod), decide (k ∈ p.del))
+
+theorem status_set (p : Props) (j : Key) (v : Val) (k : Key) :
+    status (p.set j v) k = if j = k then (some v, true, false) else status p k := by
+  unfold status
+  rw [set_m, set_mod, set_del, lookup_insert]
+  by_cases h : j = k
+  · subst h; simp [mem_sadd, mem_srem]
+  · have : ¬ k = j := fun e => h e.symm
+    simp [h, this, mem_sadd, mem_srem]
+
+theorem status_delete (p : Props) (j : Key) (k : Key) :
+    status (p.delete j) k = if j = k then (none, false, true) else status p k := by
+  unfold status
+  rw [delete_m, delete_mod, delete_del, lookup_erase]
+  by_cases h : j = k
+  · subst h; simp [mem_sadd, mem_srem]
+  · have : ¬ k = j := fun e => h e.symm
+    simp [h, this, mem_sadd, mem_srem]
+
+/-- what `StripAllPropertiesExcept` leaves for a kept key -/
+def keptStatus (s : Props) (k : Key) (otherwise : Option Val × Bool × Bool) : Option Val × Bool × Bool :=
+  if k ∈ s.del then (none, false, true)
+  else match lookup s.m k with
+    | some v => (some v, true, false)
+    | none => otherwise
+
+theorem exists_eq (s : Props) (k : Key) : s.exists k = (lookup s.m k).isSome := by
+  unfold Props.exists Props.m; cases s.map <;> rfl
+theorem get_eq (s : Props) (k : Key) : s.get k = (lookup s.m k).getD 0 := by
+  unfold Props.get Props.m; cases s.map <;> rfl
+
+theorem isDeleted_eq (s : Props) (k : Key) : s.isDeleted k = decide (k ∈ s.del) := by
+  unfold Props.isDeleted Props.del; cases s.deleted <;> simp
+
+theorem status_stripKey (s acc : Props) (j k : Key) :
+    status (stripKey s acc j) k = if j = k then keptStatus s k (status acc k) else status acc k := by
+  unfold stripKey keptStatus
+  simp only [isDeleted_eq, exists_eq, get_eq, decide_eq_true_eq]
+  by_cases hd : j ∈ s.del
+  · rw [if_pos hd, status_delete]
+    by_cases hjk : j = k
+    · subst hjk; simp [hd]
+    · rw [if_neg hjk, if_neg hjk]
+      cases hv : lookup s.m j with
+      | some v => simp only [Option.isSome_some, if_true]; rw [status_set, if_neg hjk]
+      | none => simp
+  · rw [if_neg hd]
+    cases hv : lookup s.m j with
+    | some v =>
+      simp only [Option.isSome_some, if_true, Option.getD_some]
+      rw [status_set]
+      by_cases hjk : j = k
+      · subst hjk; simp [hd, hv]
+      · simp [hjk]
+    | none =>
+      by_cases hjk : j = k
+      · subst hjk; simp [hd, hv]
+      · simp [hjk]
+
+theorem keptStatus_idem (s : Props) (k : Key) (o : Option Val × Bool × Bool) :
+    keptStatus s k (keptStatus s k o) = keptStatus s k o := by
+  unfold keptStatus
+  by_cases hd : k ∈ s.del
+  · simp [hd]
+  · simp only [hd, if_false]; cases lookup s.m k <;> rfl
+
+theorem status_foldl_stripKey (s : Props) (ks : List Key) (acc : Props) (k : Key) :
+    status (ks.foldl (stripKey s) acc) k = if k ∈ ks then keptStatus s k (status acc k) else status acc k := by
+  induction ks generalizing acc with
+  | nil => simp
+  | cons j ks ih =>
+    rw [List.foldl_cons, ih, status_stripKey]
+    by_cases hjk : j = k
+    · subst hjk
+      by_cases hin : j ∈ ks
+      · simp only [hin, if_true, List.mem_cons, true_or]; exact keptStatus_idem s j _
+      · simp [hin]
+    · have hkj : ¬ k = j := fun e => hjk e.symm
+      by_cases hin : k ∈ ks
+      · simp [hjk, hkj, hin]
+      · simp [hjk, hkj, hin]
+
+/-- after `StripAllPropertiesExcept(except)`: a kept key that was deleted is deleted, a kept key that exists has its
+value and is modified, every other key is absent and untracked -/
+theorem status_strip (s : Props) (ks : List Key) (k : Key) :
+    status (s.strip ks) k = if k ∈ ks then keptStatus s k (none, false, false) else (none, false, false) := by
+  unfold Props.strip
+  rw [status_foldl_stripKey]
+  have : status (Props.load none) k = (none, false, false) := by simp [status]
+  rw [this]
+
+theorem inv_stripKey {L : KV} (s : Props) {acc : Props} (h : Inv L acc) (j : Key) : Inv L (stripKey s acc j) := by
+  unfold stripKey
+  have h1 : Inv L (if s.exists j then acc.set j (s.get j) else acc) := by
+    split
+    · exact inv_set h _ _
+    · exact h
+  show Inv L (if s.isDeleted j = true then (if s.exists j then acc.set j (s.get j) else acc).delete j
+      else (if s.exists j then acc.set j (s.get j) else acc))
+  split
+  · exact inv_delete h1 j
+  · exact h1
+
+/-- the stripped properties are a fresh object edited by `Set` / `Delete` only: tracked relative to the EMPTY map -/
+theorem inv_strip (s : Props) (ks : List Key) : Inv [] (s.strip ks) := by
+  unfold Props.strip
+  have : ∀ (acc : Props), Inv [] acc → Inv [] (ks.foldl (stripKey s) acc) := by
+    induction ks with
+    | nil => intro acc h; exact h
+    | cons j ks ih => intro acc h; exact ih _ (inv_stripKey s h j)
+  exact this _ (inv_load none)
+
+/-- An entity tracked relative to the empty map (after a strip) updates exactly the keys it touched: applied to ANY
+stored map `S`, touched keys get the entity's value (or disappear), all others keep their stored value. -/
+theorem detached_update_exact {s : Props} (h : Inv [] s) (S : KV) (k : Key) :
+    lookup (applyDelta S s.modifiedProperties s.del) k =
+      if k ∈ s.mod ∨ k ∈ s.del then lookup s.m k else lookup S k := by
+  unfold applyDelta
+  rw [lookup_eraseAll, lookup_overlay, lookup_modifiedProperties]
+  by_cases hd : k ∈ s.del
+  · simp [hd, h.delDom k hd]
+  · by_cases hm : k ∈ s.mod
+    · have := h.modDom k hm
+      cases hv : lookup s.m k with
+      | none => exact absurd hv this
+      | some v => simp [hd, hm]
+    · simp [hd, hm]
+
+/-- Strip then update: applied to the stored map `S`, every kept key ends up with the value the entity had before the
+strip (its deletion included), every other key keeps its stored value — whatever edits the entity carried for it. -/
+theorem strip_update_exact (s : Props) (ks : List Key) (S : KV) (k : Key) :
+    lookup (applyDelta S (s.strip ks).modifiedProperties (s.strip ks).del) k =
+      if k ∈ ks ∧ (k ∈ s.del ∨ lookup s.m k ≠ none) then (if k ∈ s.del then none else lookup s.m k) else lookup S k := by
+  rw [detached_update_exact (inv_strip s ks)]
+  have hst := status_strip s ks k
+  unfold status keptStatus at hst
+  by_cases hk : k ∈ ks
+  · by_cases hd : k ∈ s.del
+    · simp only [hk, hd, if_true, Prod.mk.injEq, decide_eq_false_iff_not, decide_eq_true_eq] at hst
+      simp [hk, hd, hst.1, hst.2.2]
+    · cases hv : lookup s.m k with
+      | some v =>
+        simp only [hk, hd, hv, if_true, if_false, Prod.mk.injEq, decide_eq_false_iff_not, decide_eq_true_eq] at hst
+        simp [hk, hd, hv, hst.1, hst.2.1]
+      | none =>
+        simp only [hk, hd, hv, if_true, if_false, Prod.mk.injEq, decide_eq_false_iff_not] at hst
+        simp [hk, hd, hv, hst.2.1, hst.2.2]
+  · simp only [hk, if_false, Prod.mk.injEq, decide_eq_false_iff_not] at hst
+    simp [hk, hst.2.1, hst.2.2]
+
+/-! ### JSON -/
+
+theorem props_json_roundtrip (s : Props) : Props.ofJson s.toJson = s := by
+  cases s with
+  | mk m md dl => cases m <;> cases md <;> cases dl <;> rfl
+
+theorem ent_json_roundtrip (x : Ent) : x.jsonRoundTrip = x := by
+  cases x with
+  | mk p k a r att =>
+    show Ent.ofJson att (Ent.toJson _) = _
+    unfold Ent.ofJson Ent.toJson
+    simp only [props_json_roundtrip]
+    rfl
+
 /-! ### states and histories -/
 
 theorem get_put (st : St) (e : Bool) (x : Ent) (f : Bool) : (st.put e x).get f = if f = e then x else st.get f := by
   cases e <;> cases f <;> rfl
 
-theorem einv_withProps {L : Loaded} {x : Ent} (h : EInv L x) {p : Props} (hp : Inv L.kv p) : EInv L (x.withProps p) :=
-  ⟨hp, ⟨h.kinds.nodupK, h.kinds.nodupA, h.kinds.nodupR, h.kinds.disj, h.kinds.addedIn, h.kinds.removedOut,
-    h.kinds.untouched⟩⟩
+theorem kinv_fields {L : List Kind} {x y : Ent} (h : KInv L x) (hk : y.kinds = x.kinds) (ha : y.added = x.added)
+    (hr : y.removed = x.removed) : KInv L y := by
+  constructor
+  · rw [hk]; exact h.nodupK
+  · rw [ha]; exact h.nodupA
+  · rw [hr]; exact h.nodupR
+  · rw [ha, hr]; exact h.disj
+  · rw [ha, hk]; exact h.addedIn
+  · rw [hr, hk]; exact h.removedOut
+  · rw [ha, hr, hk]; exact h.untouched
 
-theorem eweak_withProps {L : Loaded} {x : Ent} (h : EWeak L x) {p : Props} (hp : WeakInv L.kv p) :
+theorem wkinv_fields {L : List Kind} {x y : Ent} (h : WeakKInv L x) (hk : y.kinds = x.kinds) (ha : y.added = x.added)
+    (hr : y.removed = x.removed) : WeakKInv L y := by
+  constructor
+  · rw [hk]; exact h.nodupK
+  · rw [ha]; exact h.nodupA
+  · rw [hr]; exact h.nodupR
+  · rw [ha, hr]; exact h.disj
+  · rw [ha, hk]; exact h.addedIn
+  · rw [ha, hr, hk]; exact h.untouched
+
+theorem einv_withProps {L : Loaded} {x : Ent} (h : EInv L x) {p : Props} (hp : Inv (x.base L) p) : EInv L (x.withProps p) :=
+  ⟨hp, kinv_fields h.kinds rfl rfl rfl⟩
+
+theorem eweak_withProps {L : Loaded} {x : Ent} (h : EWeak L x) {p : Props} (hp : WeakInv (x.base L) p) :
     EWeak L (x.withProps p) :=
-  ⟨hp, ⟨h.kinds.nodupK, h.kinds.nodupA, h.kinds.nodupR, h.kinds.disj, h.kinds.addedIn, h.kinds.untouched⟩⟩
+  ⟨hp, wkinv_fields h.kinds rfl rfl rfl⟩
 
 theorem EInv.toWeak {L : Loaded} {x : Ent} (h : EInv L x) : EWeak L x := ⟨h.props.toWeak, h.kinds.toWeak⟩
 theorem SInv.toWeak {L : Loaded} {st : St} (h : SInv L st) : SWeak L st := fun e => (h e).toWeak
@@ -972,40 +1177,56 @@ theorem sinv_init (L : Loaded) (hn : L.kinds.Nodup) : SInv L (St.init L) := by
   rw [this]
   exact ⟨inv_load L.store, kinv_load L hn⟩
 
+theorem addKinds_attached (e : Ent) (ks : List (Option Kind)) : (e.addKinds ks).attached = e.attached := by
+  induction ks generalizing e with
+  | nil => rfl
+  | cons k ks ih =>
+    cases k with
+    | none => rw [addKinds_none]; exact ih e
+    | some k => rw [addKinds_some, ih]; rfl
+
+theorem deleteKinds_attached (e : Ent) (ks : List Kind) : (e.deleteKinds ks).attached = e.attached := by
+  induction ks generalizing e with
+  | nil => rfl
+  | cons k ks ih => rw [deleteKinds_cons, ih]; rfl
+
+theorem addKinds_base (e : Ent) (ks : List (Option Kind)) (L : Loaded) : (e.addKinds ks).base L = e.base L := by
+  unfold Ent.base; rw [addKinds_attached]
+theorem deleteKinds_base (e : Ent) (ks : List Kind) (L : Loaded) : (e.deleteKinds ks).base L = e.base L := by
+  unfold Ent.base; rw [deleteKinds_attached]
+
 theorem einv_addKinds {L : Loaded} {x : Ent} (h : EInv L x) (ks : List (Option Kind)) : EInv L (x.addKinds ks) :=
-  ⟨by rw [addKinds_props]; exact h.props, kinv_addKinds h.kinds ks⟩
+  ⟨by rw [addKinds_props, addKinds_base]; exact h.props, kinv_addKinds h.kinds ks⟩
 theorem einv_deleteKinds {L : Loaded} {x : Ent} (h : EInv L x) (ks : List Kind) : EInv L (x.deleteKinds ks) :=
-  ⟨by rw [deleteKinds_props]; exact h.props, kinv_deleteKinds h.kinds ks⟩
+  ⟨by rw [deleteKinds_props, deleteKinds_base]; exact h.props, kinv_deleteKinds h.kinds ks⟩
 theorem eweak_addKinds {L : Loaded} {x : Ent} (h : EWeak L x) (ks : List (Option Kind)) : EWeak L (x.addKinds ks) :=
-  ⟨by rw [addKinds_props]; exact h.props, weak_addKinds h.kinds ks⟩
+  ⟨by rw [addKinds_props, addKinds_base]; exact h.props, weak_addKinds h.kinds ks⟩
 theorem eweak_deleteKinds {L : Loaded} {x : Ent} (h : EWeak L x) (ks : List Kind) : EWeak L (x.deleteKinds ks) :=
-  ⟨by rw [deleteKinds_props]; exact h.props, weak_deleteKinds h.kinds ks⟩
+  ⟨by rw [deleteKinds_props, deleteKinds_base]; exact h.props, weak_deleteKinds h.kinds ks⟩
 
-theorem merge_def (s o : Ent) : Ent.merge s o = { (s.mergeKinds o) with props := s.props.merge o.props } := rfl
-theorem mergeOld_def (s o : Ent) : Ent.mergeOld s o = { (s.mergeKindsOld o) with props := s.props.mergeOld o.props } := rfl
+/-- the base of a merge result: attached as soon as one side is -/
+theorem base_or (L : Loaded) (s o : Ent) (k : Key) :
+    lookup (overlay (s.base L) (o.base L)) k = lookup (if s.attached || o.attached then L.kv else []) k := by
+  unfold Ent.base
+  cases s.attached <;> cases o.attached
+  · rfl
+  · simp only [if_true, Bool.false_or, if_false, Bool.false_eq_true]
+    rw [lookup_overlay]; cases lookup L.kv k <;> rfl
+  · rfl
+  · exact lookup_overlay_self L.kv k
 
-theorem einv_merge {L : Loaded} {s o : Ent} (h : EInv L s) (ho : EInv L o) : EInv L (Ent.merge s o) := by
-  have k := kinv_mergeKinds h.kinds ho.kinds
-  rw [merge_def]
-  exact ⟨inv_merge h.props ho.props, ⟨k.nodupK, k.nodupA, k.nodupR, k.disj, k.addedIn, k.removedOut, k.untouched⟩⟩
+theorem einv_merge {L : Loaded} {s o : Ent} (h : EInv L s) (ho : EInv L o) : EInv L (Ent.merge s o) :=
+  ⟨inv_congr (base_or L s o) (inv_merge_gen h.props ho.props), kinv_fields (kinv_mergeKinds h.kinds ho.kinds) rfl rfl rfl⟩
 
-theorem eweak_mergeOld {L : Loaded} {s o : Ent} (h : EWeak L s) (ho : EWeak L o) : EWeak L (Ent.mergeOld s o) := by
-  have k := weak_mergeKindsOld h.kinds ho.kinds
-  rw [mergeOld_def]
-  exact ⟨weak_mergeOld h.props ho.props, ⟨k.nodupK, k.nodupA, k.nodupR, k.disj, k.addedIn, k.untouched⟩⟩
+theorem einv_relMerge {L : Loaded} {s o : Ent} (h : EInv L s) (ho : EInv L o) : EInv L (s.relMerge false o) :=
+  ⟨inv_congr (base_or L s o) (inv_merge_gen h.props ho.props), kinv_fields h.kinds rfl rfl rfl⟩
 
-theorem einv_mergeOld_iff {L : Loaded} {s o : Ent} (h : EInv L s) (ho : EInv L o) :
-    EInv L (Ent.mergeOld s o) ↔ (MergeSafe s.props o.props ∧ KMergeSafe s o) := by
-  rw [mergeOld_def]
-  constructor
-  · intro hi
-    refine ⟨(inv_mergeOld_iff h.props ho.props).1 hi.props, (kinv_mergeKindsOld_iff h.kinds ho.kinds).1 ?_⟩
-    have k := hi.kinds
-    exact ⟨k.nodupK, k.nodupA, k.nodupR, k.disj, k.addedIn, k.removedOut, k.untouched⟩
-  · intro hs
-    have k := (kinv_mergeKindsOld_iff h.kinds ho.kinds).2 hs.2
-    exact ⟨(inv_mergeOld_iff h.props ho.props).2 hs.1,
-      ⟨k.nodupK, k.nodupA, k.nodupR, k.disj, k.addedIn, k.removedOut, k.untouched⟩⟩
+theorem einv_strip {L : Loaded} {x : Ent} (h : EInv L x) (ks : List Key) : EInv L (x.strip ks) :=
+  ⟨inv_strip x.props ks, kinv_fields h.kinds rfl rfl rfl⟩
+
+theorem einv_clone {L : Loaded} {x y : Ent} (hx : EInv L x) (hy : EInv L y) :
+    EInv L { y with props := x.props.clone, attached := x.attached } :=
+  ⟨by show Inv (x.base L) x.props.clone; rw [clone_eq]; exact hx.props, kinv_fields hy.kinds rfl rfl rfl⟩
 
 /-- every operation of the code as it is preserves the state invariant -/
 theorem sinv_step {L : Loaded} {st : St} (h : SInv L st) (o : Op) : SInv L (st.step false o) := by
@@ -1014,40 +1235,131 @@ theorem sinv_step {L : Loaded} {st : St} (h : SInv L st) (o : Op) : SInv L (st.s
   | setAll e kvs => exact sinv_put h e (einv_withProps (h e) (inv_setAll (h e).props kvs))
   | delete e k => exact sinv_put h e (einv_withProps (h e) (inv_delete (h e).props k))
   | read e => exact h
-  | clone e f => exact sinv_put h f (einv_withProps (h f) (by rw [clone_eq]; exact (h e).props))
-  | pmerge e f => exact sinv_put h e (einv_withProps (h e) (inv_merge (h e).props (h f).props))
+  | clone e f => exact sinv_put h f (einv_clone (h e) (h f))
+  | pmerge e f => exact sinv_put h e (einv_relMerge (h e) (h f))
   | addKinds e ks => exact sinv_put h e (einv_addKinds (h e) ks)
   | deleteKinds e ks => exact sinv_put h e (einv_deleteKinds (h e) ks)
   | nmerge e f => exact sinv_put h e (einv_merge (h e) (h f))
-  | rmerge e f => exact sinv_put h e (einv_withProps (h e) (inv_merge (h e).props (h f).props))
+  | rmerge e f => exact sinv_put h e (einv_relMerge (h e) (h f))
+  | strip e ks => exact sinv_put h e (einv_strip (h e) ks)
+  | json e => exact sinv_put h e (by rw [ent_json_roundtrip]; exact h e)
 
 theorem sinv_run {L : Loaded} {st : St} (h : SInv L st) (ops : List Op) : SInv L (st.run false ops) := by
   induction ops generalizing st with
   | nil => exact h
   | cons o ops ih => exact ih (sinv_step h o)
 
+/-! #### the code before commit 179da67 (histories without `strip`, which postdates the statements about it: every
+entity stays attached to the loaded state) -/
+
+/-- both entities are still tracked relative to the loaded state -/
+def SAtt (st : St) : Prop := ∀ e, (st.get e).attached = true
+
+theorem base_att {x : Ent} (h : x.attached = true) (L : Loaded) : x.base L = L.kv := by unfold Ent.base; rw [h]; rfl
+
+theorem satt_init (L : Loaded) : SAtt (St.init L) := by intro e; cases e <;> rfl
+
+theorem satt_put {st : St} (h : SAtt st) (e : Bool) {x : Ent} (hx : x.attached = true) : SAtt (st.put e x) := by
+  intro f; rw [get_put]; by_cases hf : f = e
+  · rw [if_pos hf]; exact hx
+  · rw [if_neg hf]; exact h f
+
+theorem satt_step {st : St} (h : SAtt st) (old : Bool) (o : Op) (hs : o.isStrip = false) : SAtt (st.step old o) := by
+  cases o with
+  | set e k v => exact satt_put h e (h e)
+  | setAll e kvs => exact satt_put h e (h e)
+  | delete e k => exact satt_put h e (h e)
+  | read e => exact h
+  | clone e f => exact satt_put h f (h e)
+  | pmerge e f => exact satt_put h e (by show ((st.get e).attached || (st.get f).attached) = true; rw [h e, h f]; rfl)
+  | addKinds e ks => exact satt_put h e (by rw [addKinds_attached]; exact h e)
+  | deleteKinds e ks => exact satt_put h e (by rw [deleteKinds_attached]; exact h e)
+  | nmerge e f =>
+    refine satt_put h e ?_
+    cases old
+    · show ((st.get e).attached || (st.get f).attached) = true; rw [h e, h f]; rfl
+    · show ((st.get e).attached || (st.get f).attached) = true; rw [h e, h f]; rfl
+  | rmerge e f => exact satt_put h e (by show ((st.get e).attached || (st.get f).attached) = true; rw [h e, h f]; rfl)
+  | strip e ks => simp [Op.isStrip] at hs
+  | json e => exact satt_put h e (by rw [ent_json_roundtrip]; exact h e)
+
+theorem eweak_mergeOld {L : Loaded} {s o : Ent} (hs : s.attached = true) (ho' : o.attached = true)
+    (h : EWeak L s) (ho : EWeak L o) : EWeak L (Ent.mergeOld s o) := by
+  have hp := h.props; have hop := ho.props
+  rw [base_att hs] at hp; rw [base_att ho'] at hop
+  refine ⟨?_, wkinv_fields (weak_mergeKindsOld h.kinds ho.kinds) rfl rfl rfl⟩
+  have : (Ent.mergeOld s o).base L = L.kv := base_att (by show (s.attached || o.attached) = true; rw [hs, ho']; rfl) L
+  rw [this]
+  exact weak_mergeOld hp hop
+
+theorem eweak_relMergeOld {L : Loaded} {s o : Ent} (hs : s.attached = true) (ho' : o.attached = true)
+    (h : EWeak L s) (ho : EWeak L o) : EWeak L (s.relMerge true o) := by
+  have hp := h.props; have hop := ho.props
+  rw [base_att hs] at hp; rw [base_att ho'] at hop
+  refine ⟨?_, wkinv_fields h.kinds rfl rfl rfl⟩
+  have : (s.relMerge true o).base L = L.kv := base_att (by show (s.attached || o.attached) = true; rw [hs, ho']; rfl) L
+  rw [this]
+  exact weak_mergeOld hp hop
+
+theorem einv_relMergeOld_iff {L : Loaded} {s o : Ent} (hs : s.attached = true) (ho' : o.attached = true)
+    (h : EInv L s) (ho : EInv L o) : EInv L (s.relMerge true o) ↔ MergeSafe s.props o.props := by
+  have hp := h.props; have hop := ho.props
+  rw [base_att hs] at hp; rw [base_att ho'] at hop
+  have hb : (s.relMerge true o).base L = L.kv := base_att (by show (s.attached || o.attached) = true; rw [hs, ho']; rfl) L
+  constructor
+  · intro hi
+    have := hi.props; rw [hb] at this
+    exact (inv_mergeOld_iff hp hop).1 this
+  · intro hsafe
+    refine ⟨?_, kinv_fields h.kinds rfl rfl rfl⟩
+    rw [hb]; exact (inv_mergeOld_iff hp hop).2 hsafe
+
+theorem einv_mergeOld_iff {L : Loaded} {s o : Ent} (hs : s.attached = true) (ho' : o.attached = true)
+    (h : EInv L s) (ho : EInv L o) :
+    EInv L (Ent.mergeOld s o) ↔ (MergeSafe s.props o.props ∧ KMergeSafe s o) := by
+  have hp := h.props; have hop := ho.props
+  rw [base_att hs] at hp; rw [base_att ho'] at hop
+  have hb : (Ent.mergeOld s o).base L = L.kv := base_att (by show (s.attached || o.attached) = true; rw [hs, ho']; rfl) L
+  constructor
+  · intro hi
+    have hpr := hi.props; rw [hb] at hpr
+    exact ⟨(inv_mergeOld_iff hp hop).1 hpr,
+      (kinv_mergeKindsOld_iff h.kinds ho.kinds).1 (kinv_fields hi.kinds rfl rfl rfl)⟩
+  · intro hsafe
+    refine ⟨?_, kinv_fields ((kinv_mergeKindsOld_iff h.kinds ho.kinds).2 hsafe.2) rfl rfl rfl⟩
+    rw [hb]; exact (inv_mergeOld_iff hp hop).2 hsafe.1
+
 /-- the code before commit 179da67: every operation, merges included, preserves every clause except
 `Deleted ∩ dom Map = ∅` / `DeletedKinds ∩ Kinds = ∅` -/
-theorem sweak_step_old {L : Loaded} {st : St} (h : SWeak L st) (o : Op) : SWeak L (st.step true o) := by
+theorem sweak_step_old {L : Loaded} {st : St} (h : SWeak L st) (ha : SAtt st) (o : Op) (hs : o.isStrip = false) :
+    SWeak L (st.step true o) := by
   cases o with
   | set e k v => exact sweak_put h e (eweak_withProps (h e) (weak_set (h e).props k v))
   | setAll e kvs => exact sweak_put h e (eweak_withProps (h e) (weak_setAll (h e).props kvs))
   | delete e k => exact sweak_put h e (eweak_withProps (h e) (weak_delete (h e).props k))
   | read e => exact h
-  | clone e f => exact sweak_put h f (eweak_withProps (h f) (by rw [clone_eq]; exact (h e).props))
-  | pmerge e f => exact sweak_put h e (eweak_withProps (h e) (weak_mergeOld (h e).props (h f).props))
+  | clone e f =>
+    refine sweak_put h f ⟨?_, wkinv_fields (h f).kinds rfl rfl rfl⟩
+    show WeakInv ((st.get e).base L) (st.get e).props.clone
+    rw [clone_eq]; exact (h e).props
+  | pmerge e f => exact sweak_put h e (eweak_relMergeOld (ha e) (ha f) (h e) (h f))
   | addKinds e ks => exact sweak_put h e (eweak_addKinds (h e) ks)
   | deleteKinds e ks => exact sweak_put h e (eweak_deleteKinds (h e) ks)
-  | nmerge e f => exact sweak_put h e (eweak_mergeOld (h e) (h f))
-  | rmerge e f => exact sweak_put h e (eweak_withProps (h e) (weak_mergeOld (h e).props (h f).props))
+  | nmerge e f => exact sweak_put h e (eweak_mergeOld (ha e) (ha f) (h e) (h f))
+  | rmerge e f => exact sweak_put h e (eweak_relMergeOld (ha e) (ha f) (h e) (h f))
+  | strip e ks => simp [Op.isStrip] at hs
+  | json e => exact sweak_put h e (by rw [ent_json_roundtrip]; exact h e)
 
-theorem sweak_run_old {L : Loaded} {st : St} (h : SWeak L st) (ops : List Op) : SWeak L (st.run true ops) := by
+theorem sweak_run_old {L : Loaded} {st : St} (h : SWeak L st) (ha : SAtt st) (ops : List Op)
+    (hs : ∀ o, o ∈ ops → o.isStrip = false) : SWeak L (st.run true ops) := by
   induction ops generalizing st with
   | nil => exact h
-  | cons o ops ih => exact ih (sweak_step_old h o)
+  | cons o ops ih =>
+    have ho := hs o List.mem_cons_self
+    exact ih (sweak_step_old h ha o ho) (satt_step ha true o ho) (fun o' ho' => hs o' (List.mem_cons_of_mem _ ho'))
 
-/-- side condition of one operation of the code before commit 179da67: merges must not re-introduce a key / kind the receiver
-deleted and the other side merely carries -/
+/-- side condition of one operation of the code before commit 179da67: merges must not re-introduce a key / kind the
+receiver deleted and the other side merely carries -/
 def Op.SafeAt (st : St) : Op → Prop
   | .pmerge e f => MergeSafe (st.get e).props (st.get f).props
   | .nmerge e f => MergeSafe (st.get e).props (st.get f).props ∧ KMergeSafe (st.get e) (st.get f)
@@ -1070,6 +1382,8 @@ instance Op.decSafeAt (st : St) : (o : Op) → Decidable (o.SafeAt st)
   | .clone _ _ => isTrue trivial
   | .addKinds _ _ => isTrue trivial
   | .deleteKinds _ _ => isTrue trivial
+  | .strip _ _ => isTrue trivial
+  | .json _ => isTrue trivial
 
 instance St.decSafeRun : (st : St) → (ops : List Op) → Decidable (st.SafeRun ops)
   | _, [] => isTrue trivial
@@ -1079,22 +1393,24 @@ instance St.decSafeRun : (st : St) → (ops : List Op) → Decidable (st.SafeRun
     | isFalse a, _ => isFalse (fun h => a h.1)
     | _, isFalse b => isFalse (fun h => b h.2)
 
-theorem sinv_step_old {L : Loaded} {st : St} (h : SInv L st) (o : Op) (hs : o.SafeAt st) :
-    SInv L (st.step true o) := by
+theorem sinv_step_old {L : Loaded} {st : St} (h : SInv L st) (ha : SAtt st) (o : Op) (hst : o.isStrip = false)
+    (hs : o.SafeAt st) : SInv L (st.step true o) := by
   cases o with
   | set e k v => exact sinv_put h e (einv_withProps (h e) (inv_set (h e).props k v))
   | setAll e kvs => exact sinv_put h e (einv_withProps (h e) (inv_setAll (h e).props kvs))
   | delete e k => exact sinv_put h e (einv_withProps (h e) (inv_delete (h e).props k))
   | read e => exact h
-  | clone e f => exact sinv_put h f (einv_withProps (h f) (by rw [clone_eq]; exact (h e).props))
-  | pmerge e f => exact sinv_put h e (einv_withProps (h e) ((inv_mergeOld_iff (h e).props (h f).props).2 hs))
+  | clone e f => exact sinv_put h f (einv_clone (h e) (h f))
+  | pmerge e f => exact sinv_put h e ((einv_relMergeOld_iff (ha e) (ha f) (h e) (h f)).2 hs)
   | addKinds e ks => exact sinv_put h e (einv_addKinds (h e) ks)
   | deleteKinds e ks => exact sinv_put h e (einv_deleteKinds (h e) ks)
-  | nmerge e f => exact sinv_put h e ((einv_mergeOld_iff (h e) (h f)).2 hs)
-  | rmerge e f => exact sinv_put h e (einv_withProps (h e) ((inv_mergeOld_iff (h e).props (h f).props).2 hs))
+  | nmerge e f => exact sinv_put h e ((einv_mergeOld_iff (ha e) (ha f) (h e) (h f)).2 hs)
+  | rmerge e f => exact sinv_put h e ((einv_relMergeOld_iff (ha e) (ha f) (h e) (h f)).2 hs)
+  | strip e ks => simp [Op.isStrip] at hst
+  | json e => exact sinv_put h e (by rw [ent_json_roundtrip]; exact h e)
 
 /-- … and the side condition is necessary: an unsafe merge breaks the invariant of its receiver -/
-theorem sinv_step_old_iff {L : Loaded} {st : St} (h : SInv L st) (o : Op) :
+theorem sinv_step_old_iff {L : Loaded} {st : St} (h : SInv L st) (ha : SAtt st) (o : Op) (hst : o.isStrip = false) :
     SInv L (st.step true o) ↔ o.SafeAt st := by
   constructor
   · intro hi
@@ -1102,15 +1418,15 @@ theorem sinv_step_old_iff {L : Loaded} {st : St} (h : SInv L st) (o : Op) :
     | pmerge e f =>
       have := hi e
       simp only [St.step, get_put, if_true] at this
-      exact (inv_mergeOld_iff (h e).props (h f).props).1 this.props
+      exact (einv_relMergeOld_iff (ha e) (ha f) (h e) (h f)).1 this
     | nmerge e f =>
       have := hi e
       simp only [St.step, get_put, if_true] at this
-      exact (einv_mergeOld_iff (h e) (h f)).1 this
+      exact (einv_mergeOld_iff (ha e) (ha f) (h e) (h f)).1 this
     | rmerge e f =>
       have := hi e
       simp only [St.step, get_put, if_true] at this
-      exact (inv_mergeOld_iff (h e).props (h f).props).1 this.props
+      exact (einv_relMergeOld_iff (ha e) (ha f) (h e) (h f)).1 this
     | set e k v => trivial
     | setAll e kvs => trivial
     | delete e k => trivial
@@ -1118,13 +1434,17 @@ theorem sinv_step_old_iff {L : Loaded} {st : St} (h : SInv L st) (o : Op) :
     | clone e f => trivial
     | addKinds e ks => trivial
     | deleteKinds e ks => trivial
-  · exact sinv_step_old h o
+    | strip e ks => trivial
+    | json e => trivial
+  · exact sinv_step_old h ha o hst
 
-theorem sinv_run_old {L : Loaded} {st : St} (h : SInv L st) (ops : List Op) (hs : st.SafeRun ops) :
-    SInv L (st.run true ops) := by
+theorem sinv_run_old {L : Loaded} {st : St} (h : SInv L st) (ha : SAtt st) (ops : List Op)
+    (hst : ∀ o, o ∈ ops → o.isStrip = false) (hs : st.SafeRun ops) : SInv L (st.run true ops) := by
   induction ops generalizing st with
   | nil => exact h
-  | cons o ops ih => exact ih (sinv_step_old h o hs.1) hs.2
+  | cons o ops ih =>
+    have ho := hst o List.mem_cons_self
+    exact ih (sinv_step_old h ha o ho hs.1) (satt_step ha true o ho) (fun o' ho' => hst o' (List.mem_cons_of_mem _ ho')) hs.2
 
 theorem safeRun_of_noMerge (st : St) (ops : List Op) (hm : ∀ o, o ∈ ops → o.isMerge = false) : st.SafeRun ops := by
   induction ops generalizing st with
@@ -1146,6 +1466,8 @@ def Op.target : Op → Bool
   | .deleteKinds e _ => e
   | .nmerge e _ => e
   | .rmerge e _ => e
+  | .strip e _ => e
+  | .json e => e
 
 theorem step_frame (old : Bool) (st : St) (o : Op) (g : Bool) (hg : g ≠ o.target) :
     (st.step old o).get g = st.get g := by
